@@ -11,6 +11,17 @@ _ODE_NOTE = ("the strict C reader is trusted for the statement shapes it accepts
 _ODE_TECH = ("TLA+ spec OdeGen.tla model-checked with TLC over all small networks; TLC-chosen and random networks rendered by the real "
              "generator for dense/sparse/cusparse/odeint, read back with a strict C reader and validated event by event by Trace_OdeGen.tla")
 CHECKS = {
+    "C10": dict(level="model_checking", design_ref="DESIGN.md §4 C10, §11",
+        technique="TLA+ spec Symbols.tla (register / unregister / ordered merge over the component list, Closed predicate) model-checked "
+                  "with TLC; registries of the real component objects and the declarations / identifier uses of every emitted unit judged "
+                  "by Trace_Symbols.tla; g++ -fsyntax-only against the API stand-ins as second observation",
+        text="TLC checks the registry and merge semantics for all 4-step histories over two components; for every rendered project "
+             "(six formats and mixtures, hh93 / hh93i / rr07 / rr07x incl. two grain groups, dense / sparse / rosenbrock4, shielding "
+             "tables, cooling) the declarations of NaunetData, EvalRates, EvalHeating/CoolingRates, Fex and Jac must be exactly the "
+             "merged registry, declared once, every identifier of every derived quantity, rate, ODE and Jacobian statement declared "
+             "before use, and the compiler must report no undeclared or redefined name.",
+        note="registries read from component._symbols; globals of a unit = macros + extern constants + helper functions of the rendered "
+             "headers + C math"),
     "C12": dict(level="model_checking", design_ref="DESIGN.md §4 C12, §11",
         technique="TLA+ spec Expr.tla (Fortran expression trees, Translate to the canonical C tree, integer evaluation of both) "
                   "model-checked with TLC; TLC-chosen and generated trees printed as minimal-parenthesis Fortran, translated by the real "
